@@ -47,6 +47,7 @@ type c14trig struct {
 	Workers    int    `json:"workers"`
 	RanOK      bool   `json:"ran_ok"`
 	SetupRan   bool   `json:"setup_ran"`
+	RateOK     bool   `json:"rate_ok"` // sampled values of the rate function are finite, sane numbers
 	Msg        string `json:"msg,omitempty"`
 }
 
@@ -100,7 +101,7 @@ func c14rateRow(s string) (row c14rate) {
 
 // tryRates exercises an accepted rate function / trigger for a few ticks on a real pool.
 func c14runTrigger(front, input string, trig *api.Trigger, conc int) (row c14trig) {
-	row = c14trig{Kind: "trigger", Front: front, Input: input, Accepted: true, Workers: conc, IntervalOK: true}
+	row = c14trig{Kind: "trigger", Front: front, Input: input, Accepted: true, Workers: conc, IntervalOK: true, RateOK: true}
 	var setup, iters atomic.Int64
 	fn := func(t *f1testing.T) f1testing.RunFn {
 		setup.Add(1)
@@ -133,7 +134,7 @@ func c14runTrigger(front, input string, trig *api.Trigger, conc int) (row c14tri
 }
 
 func c14constructed(front, input string, build func() (*api.Rates, error)) (row c14trig) {
-	row = c14trig{Kind: "trigger", Front: front, Input: input, Workers: 1}
+	row = c14trig{Kind: "trigger", Front: front, Input: input, Workers: 1, RateOK: true}
 	var rates *api.Rates
 	var err error
 	func() {
@@ -154,12 +155,32 @@ func c14constructed(front, input string, build func() (*api.Rates, error)) (row 
 	trig := &api.Trigger{Trigger: api.NewIterationWorker(rates.IterationDuration, rates.Rate), DryRun: rates.Rate, Duration: rates.Duration}
 	r2 := c14runTrigger(front, input, trig, 2)
 	r2.IntervalOK = rates.IterationDuration > 0
+	// a usable rate function: a fresh instance sampled over a few seconds returns finite, sane numbers
+	func() {
+		defer func() {
+			if r := recover(); r != nil {
+				r2.RateOK = false
+				r2.Msg += " rate function panicked: " + fmt.Sprint(r)
+			}
+		}()
+		if fresh, err := build(); err == nil {
+			t0 := time.Now()
+			for k := 0; k < 40; k++ {
+				v := fresh.Rate(t0.Add(time.Duration(k) * 77 * time.Millisecond))
+				if v < -1_000_000_000 || v > 1_000_000_000_000 {
+					r2.RateOK = false
+					r2.Msg += fmt.Sprintf(" rate function returned %d", v)
+					break
+				}
+			}
+		}
+	}()
 	return r2
 }
 
 // child process: the real CLI
 func c14child(self, front string, args []string, yaml string) (row c14trig) {
-	row = c14trig{Kind: "trigger", Front: front, Input: strings.Join(args, " "), Workers: 1, IntervalOK: true}
+	row = c14trig{Kind: "trigger", Front: front, Input: strings.Join(args, " "), Workers: 1, IntervalOK: true, RateOK: true}
 	if yaml != "" {
 		row.Input = yaml
 	}
@@ -306,6 +327,9 @@ func init() {
 			{1000, time.Second, -10 * time.Millisecond, 500 * time.Millisecond, 100 * time.Millisecond, "", "none"},
 			{1000, 0, 10 * time.Millisecond, 500 * time.Millisecond, 100 * time.Millisecond, "", "none"},
 			{1000, time.Second, 10 * time.Millisecond, 500 * time.Millisecond, 0, "", "none"},
+			{1000, time.Second, 10 * time.Millisecond, 500 * time.Millisecond, 0, "", "random"},
+			{1000, time.Second, 200 * time.Millisecond, 500 * time.Millisecond, 0, "", "regular"},
+			{1000, time.Second, 10 * time.Millisecond, 500 * time.Millisecond, -100 * time.Millisecond, "", "none"},
 			{1000, time.Second, 10 * time.Millisecond, 500 * time.Millisecond, 100 * time.Millisecond, "a,b", "none"},
 			{1000, time.Second, 10 * time.Millisecond, 500 * time.Millisecond, 100 * time.Millisecond, ",,", "regular"},
 			{1000, time.Second, 10 * time.Millisecond, 500 * time.Millisecond, 100 * time.Millisecond, "1,0,2", "random"},
